@@ -107,6 +107,14 @@ def fireW (s : WSt) (k : Key) : WSt × List WFrame :=
     ({ s with r := (fire s.r k).1, wbuf := s.wbuf.filter (fun x => !(x.1 == k)) }, [(wbufGet s.wbuf k).getD (.plain q)])
   | none => (s, [])
 
+/-- the LATE-ASSEMBLY shape of the CBF path (seeded change C06-m8; used by `_witness` / negative theorems only): the buffer
+keeps the decoded headers and payload, and `_cbf_timeout` builds the PDU with `_forward_pdu` at expiry - on the timer
+thread `tthr`, i.e. under THAT thread's receive context -/
+def fireLate (s : WSt) (tthr : Nat) (k : Key) : List WFrame :=
+  match bufGet s.r.buf k with
+  | some q => [forwardPdu (s.ctx tthr) q]
+  | none => []
+
 inductive WOp
   | rx (x : Rx) (env : Env) (now : Nat)
   | fire (k : Key)
